@@ -39,7 +39,13 @@ type scenarioLog struct {
 	idCh map[int]chan struct{}
 	byID map[uint16]int
 	fail map[int]bool // WriteTo returns an error for these threads
+	// a panic recovered around Session.Parse (injected frame): the icmpTable mutex may be left locked
+	parsePanic string
 }
+
+// wedged: a scenario ended in a state this process cannot recover from (Parse panicked inside echoNotify, or the
+// scenario blocked: icmpTable left locked).  No further case is evaluated: each would block as well.
+var wedged bool
 
 func (l *scenarioLog) add(tok string) {
 	l.mu.Lock()
@@ -219,7 +225,7 @@ type injection struct {
 	end    time.Duration
 }
 
-func runScenario(scn string) (obs []event, threads map[int]*thread, injs []*injection, id0 uint16, dumps []string) {
+func runScenario(scn string) (obs []event, threads map[int]*thread, injs []*injection, id0 uint16, dumps []string, parsePanic string) {
 	setup()
 	l := &scenarioLog{t0: time.Now(), idOf: map[int]uint16{}, idCh: map[int]chan struct{}{}, byID: map[uint16]int{}, fail: map[int]bool{}}
 	theConn.log = l
@@ -266,7 +272,13 @@ func runScenario(scn string) (obs []event, threads map[int]*thread, injs []*inje
 			in.start = time.Since(l.t0)
 			l.evs = append(l.evs, event{tok, in.start})
 			l.mu.Unlock()
-			core.Safely(func() string { session.Parse(fr); return "" })
+			if core.Safely(func() string { session.Parse(fr); return "" }) == "panic" {
+				l.mu.Lock()
+				if l.parsePanic == "" {
+					l.parsePanic = fmt.Sprintf("Session.Parse panicked on injected frame %d (ICMP %s)", k, core.Hex(fr[len(fr)-min(len(fr), 16):]))
+				}
+				l.mu.Unlock()
+			}
 			l.mu.Lock()
 			in.endI = len(l.evs)
 			in.end = time.Since(l.t0)
@@ -280,9 +292,21 @@ func runScenario(scn string) (obs []event, threads map[int]*thread, injs []*inje
 			do()
 		}
 	}
+	panicked := func() string {
+		l.mu.Lock()
+		defer l.mu.Unlock()
+		return l.parsePanic
+	}
 	for _, st := range strings.Split(scn, ",") {
 		if st == "" {
 			continue
+		}
+		if pp := panicked(); pp != "" {
+			// Parse panicked (inside echoNotify the table mutex stays locked): nothing after this can be trusted to return
+			l.mu.Lock()
+			obs = append(obs, l.evs...)
+			l.mu.Unlock()
+			return obs, threads, injs, id0, dumps, pp
 		}
 		op, arg := st[0], st[1:]
 		switch op {
@@ -392,11 +416,39 @@ func runScenario(scn string) (obs []event, threads map[int]*thread, injs []*inje
 			wg.Wait()
 		}
 	}
+	if pp := panicked(); pp != "" {
+		l.mu.Lock()
+		obs = append(obs, l.evs...)
+		l.mu.Unlock()
+		return obs, threads, injs, id0, dumps, pp
+	}
 	wg.Wait()
 	l.mu.Lock()
 	obs = append(obs, l.evs...)
 	l.mu.Unlock()
-	return
+	return obs, threads, injs, id0, dumps, panicked()
+}
+
+// scenarioBudget: how long a scenario may take before it counts as blocked – its sleeps and the effective timeouts
+// of its calls, plus ten seconds for a loaded machine.
+func scenarioBudget(scn string) time.Duration {
+	d := 10 * time.Second
+	for _, st := range strings.Split(scn, ",") {
+		if st == "" {
+			continue
+		}
+		switch st[0] {
+		case 'w':
+			ms, _ := strconv.Atoi(st[1:])
+			d += time.Duration(ms) * time.Millisecond
+		case 'p':
+			if f := strings.Split(st[1:], ":"); len(f) == 3 {
+				ms, _ := strconv.Atoi(f[2])
+				d += effTimeout(time.Duration(ms) * time.Millisecond)
+			}
+		}
+	}
+	return d
 }
 
 // oracle: the property evaluated directly on the observed log
@@ -445,10 +497,16 @@ func oracle(obs []event, threads map[int]*thread, injs []*injection, dumps []str
 			return fmt.Sprintf("thread %d: no echo request was written", k), ""
 		}
 		// own replies parsed entirely inside / overlapping the call
-		inside, overlap := false, false
+		inside, overlap, intime := false, false, false
+		// a reply that is handed to Parse this long after the effective timeout cannot be what completed the call
+		// (generous: the timer of a loaded machine fires late, and until it has fired a reply still counts)
+		const lateMargin = 500 * time.Millisecond
 		for _, in := range injs {
 			if !in.echo || in.id != id {
 				continue
+			}
+			if in.startI < retIdx[k] && in.endI > callIdx[k] && in.start <= sentAt[k]+th.tmo+lateMargin {
+				intime = true
 			}
 			if in.startI > sentIdx[k] && in.end < sentAt[k]+th.tmo-slack && in.endI < retIdx[k] {
 				inside = true
@@ -462,12 +520,20 @@ func oracle(obs []event, threads map[int]*thread, injs []*injection, dumps []str
 			if !overlap {
 				return fmt.Sprintf("thread %d (id %d) returned nil but no echo reply with its identifier was parsed during the call", k, id), ""
 			}
+			if !intime {
+				return fmt.Sprintf("thread %d (id %d, timeout %v) returned nil although every echo reply with its identifier was parsed more than %v after its timeout", k, id, th.tmo, lateMargin), ""
+			}
 		case "t":
 			if inside {
 				return fmt.Sprintf("thread %d (id %d) returned ErrTimeout although its own echo reply was parsed well before the timeout", k, id), ""
 			}
 			if th.retAt-sentAt[k] < th.tmo-2*time.Millisecond {
 				return fmt.Sprintf("thread %d returned ErrTimeout after %v, before its timeout %v", k, th.retAt-sentAt[k], th.tmo), ""
+			}
+			// measured on the library: a timeout argument outside (0, 10 s] means two seconds – not less (above) and
+			// not much more (2.5 s of slack for a loaded machine; the general bound below is only a hang detector)
+			if (th.req <= 0 || th.req > 10*time.Second) && th.retAt-th.callAt > th.tmo+2500*time.Millisecond {
+				return fmt.Sprintf("thread %d (timeout argument %v: the default of 2 s applies) returned ErrTimeout only after %v", k, th.req, th.retAt-th.callAt), ""
 			}
 		default:
 			return fmt.Sprintf("thread %d returned an unexpected error", k), ""
@@ -506,15 +572,48 @@ func evalTrace(c *core.Ctx, line string) *core.Case {
 	if !strings.HasSuffix(scn, ",j,t") {
 		scn += ",j,t"
 	}
-	packet.VerifICMPReset(packet.VerifICMPNextID()) // start from an empty table, keep the counter
-	obs, threads, injs, id0, dumps := runScenario(scn)
-	toks := make([]string, len(obs))
-	for i, e := range obs {
+	if wedged {
+		return nil
+	}
+	type result struct {
+		obs     []event
+		threads map[int]*thread
+		injs    []*injection
+		id0     uint16
+		dumps   []string
+		pp      string
+	}
+	ch := make(chan result, 1)
+	go func() {
+		packet.VerifICMPReset(packet.VerifICMPNextID()) // start from an empty table, keep the counter
+		var r result
+		r.obs, r.threads, r.injs, r.id0, r.dumps, r.pp = runScenario(scn)
+		ch <- r
+	}()
+	var r result
+	select {
+	case r = <-ch:
+	case <-time.After(scenarioBudget(scn)):
+		// the scenario did not come back: a ping, a table dump or Parse waits for icmpTable's mutex for ever
+		wedged = true
+		what := fmt.Sprintf("scenario blocked for more than %v (icmpTable left locked? a Ping, Parse or the table dump never returned)", scenarioBudget(scn))
+		return &core.Case{Line: "ping.trace 0 scn=" + scn, Impl: "hang", Trivial: false,
+			Oracle: func() (string, string) { return what, "" }}
+	}
+	toks := make([]string, len(r.obs))
+	for i, e := range r.obs {
 		toks[i] = e.tok
 	}
-	nl := fmt.Sprintf("ping.trace %d scn=%s %s", id0, scn, strings.Join(toks, " "))
-	return &core.Case{Line: nl, Impl: "accept", Trivial: len(threads) == 0,
-		Oracle: func() (string, string) { return oracle(obs, threads, injs, dumps) }}
+	nl := fmt.Sprintf("ping.trace %d scn=%s %s", r.id0, scn, strings.Join(toks, " "))
+	if r.pp != "" {
+		wedged = true
+		return &core.Case{Line: nl, Impl: "panic", Trivial: false,
+			Oracle: func() (string, string) {
+				return r.pp + ": a received frame must never make Parse panic (the panic was raised with the icmpTable mutex held – every later Ping / Parse of an echo reply blocks)", ""
+			}}
+	}
+	return &core.Case{Line: nl, Impl: "accept", Trivial: len(r.threads) == 0,
+		Oracle: func() (string, string) { return oracle(r.obs, r.threads, r.injs, r.dumps) }}
 }
 
 func evalCls(c *core.Ctx, line string) *core.Case {
@@ -535,11 +634,22 @@ func evalCls(c *core.Ctx, line string) *core.Case {
 	if f[1] == "6" {
 		fr = frame6(1, msg)
 	}
+	if wedged {
+		return nil
+	}
 	var got []uint16
-	res := core.Safely(func() string {
+	res := core.WithTimeout(3*time.Second, func() string { // 3 s + 12 s before it counts as blocked
 		got = packet.VerifICMPProbe(ids, func() { session.Parse(fr) })
 		return "ok"
 	})
+	if res == "panic" || res == "hang" {
+		wedged = true
+		what := "Session.Parse panicked on an ICMP message while waiters were registered (the icmpTable mutex may be left locked)"
+		if res == "hang" {
+			what = "Parse / the waiter probe blocked for more than 15 s (icmpTable left locked?)"
+		}
+		return &core.Case{Line: line, Impl: res, Trivial: false, Oracle: func() (string, string) { return what, "" }}
+	}
 	impl := res
 	if res == "ok" {
 		impl = "n=-"
@@ -574,9 +684,12 @@ func evalCls(c *core.Ctx, line string) *core.Case {
 		}}
 }
 
-// effTimeout mirrors Model.Ping.effTimeout (the clamp at the head of Ping6 / ping); the two are compared
-// by the ping.eff cases, and the trace oracle holds the implementation to it: a call returns ErrTimeout
-// no earlier than the effective timeout and (hang detector) not much later.
+// effTimeout mirrors Model.Ping.effTimeout (the clamp at the head of Ping6 / ping).  The ping.eff cases compare
+// this MIRROR with the Lean function – the library is not called there.  The library is held to it by the trace
+// oracle, which measures real calls: ErrTimeout comes no earlier than the effective timeout (every scenario) and,
+// for arguments outside (0, 10 s] with nothing received, no later than 2 s + 2.5 s (the fixed scenarios with
+// timeout arguments 0, -7, 10001, 20000, 3600000 ms); a nil return needs an own reply parsed no later than
+// 500 ms after the effective timeout.
 func effTimeout(d time.Duration) time.Duration {
 	if d <= 0 || d > 10*time.Second {
 		return 2 * time.Second
@@ -697,6 +810,9 @@ func Gen(c *core.Ctx) {
 		// timeout argument outside (0, 10 s]: the default of two seconds applies
 		"p0:4:0,w40,e0", "p0:6:0,w40,e0", "p0:4:-7,w40,e0", "p0:6:-7,w40,e0", "p0:4:10001,w40,e0", "p0:6:3600000,w40,e0",
 		"p0:4:0,p1:6:0,p2:4:10001,p3:6:-1,w30,f0,f1", "p0:4:10000,w40,e0", "p0:4:1,w30,e0",
+		// a reply long after the timeout (400 ms) does not complete the call; measured default: argument 0 and an
+		// argument above 10 s last two seconds when nothing is received
+		"p0:4:400,w1000,e0", "p0:6:400,w1000,e0", "p0:4:0,p1:6:20000",
 	} {
 		add(c, "fixed", "ping.trace 0 scn="+s)
 	}
@@ -710,7 +826,7 @@ func Gen(c *core.Ctx) {
 	for i := 0; i < n; i++ {
 		add(c, "random", "ping.trace 0 scn="+genScenario(c, 2+c.Rnd.Intn(4)))
 	}
-	c.Res.Extra["traces_validated_against_impl"] = n + 16
+	c.Res.Extra["traces_validated_against_impl"] = n + 28
 }
 
 var Runner = core.Runner{Gen: Gen, Eval: Eval}
